@@ -27,6 +27,7 @@ import Hw.Attr.DiffLemmas
 import Hw.Attr.DiffCommute
 import Hw.Attr.DiffBuildApply
 import Hw.Io.XmlDiffLemmas
+import Hw.Attr.DiffXmlLink
 namespace Hw.Props.C16
 open Hw.Diff
 variable {σ : Type} [DecidableEq σ]
@@ -361,6 +362,20 @@ theorem C16_diffxml_import_prefix (els : List (Bytes × AttrL)) (acc : List E) :
       ((importEls acc els).1 = true → suf = []) :=
   importEls_order els acc
 
+/-- the clause of the property as worded: "if hwloc_topology_diff_build(A, B) returns 0 ... the diff survives diff export/load as
+    XML with the same refname" — for every pair of topologies over byte strings whose built entries address keys inside the C
+    types (every real topology: `int depth`, `unsigned logical_index`), through either back end. -/
+theorem C16_diffxml_build_roundtrip (be : Backend) (ref : Option Bytes) (A B : Topo Bytes) (h0 : (build A B).1 = 0)
+    (hk : ∀ e ∈ (build A B).2, KeyInRange e.key) :
+    ∃ d, exportDoc ref (build A B).2 = .ok d ∧
+      importDoc be d = { ret := 0, diff := (build A B).2, ref := ref, freed := [] } :=
+  roundtrip be ref _ (build_exportable A B h0 hk)
+
+/-- ... and when it returns 1 the export entry points refuse the list (a TOO_COMPLEX entry is in it) -/
+theorem C16_diffxml_build_ret1_einval (ref : Option Bytes) (A B : Topo Bytes) (h1 : (build A B).1 = 1) :
+    exportDoc ref (build A B).2 = .einval := by
+  rw [C16_diffxml_export_too_complex, build_tc, h1]; decide
+
 /-! non-vacuity and concrete behaviour of the importer model -/
 
 /-- a list inside the hypotheses of the round trip: escaping-heavy strings, an empty string, UINT64_MAX, a special depth -/
@@ -379,6 +394,27 @@ example :
      | .ok d => decide (importDoc .libxml d = ⟨0, l, some (str "r&f"), []⟩) &&
                 decide (importDoc .nolibxml (rescan d) = ⟨0, l, some (str "r&f"), []⟩)
      | _ => false) = true := by decide +kernel
+/-- a pair of topologies over byte strings inside the hypotheses of C16_diffxml_build_roundtrip (a rename with characters
+    that need escaping and a local-memory change to UINT64_MAX) -/
+example :
+    let nd (nm : Bytes) (m : Mem) : Obj Bytes := .mk ⟨-3, 0, [(0, 0)], true, [], [], some nm, [], m, m⟩ [] [] [] []
+    let mk (nm : Bytes) (m : Mem) : Topo Bytes :=
+      ⟨.mk ⟨0, 0, [], false, [], [], some (str "Machine"), [], 0, m⟩ [] [nd nm m] [] [], 2, [], [], [], [], []⟩
+    (build (mk (str "a<b") 5) (mk (str "\"&") 18446744073709551615)).1 = 0 ∧
+    (build (mk (str "a<b") 5) (mk (str "\"&") 18446744073709551615)).2.length = 2 ∧
+    ∀ e ∈ (build (mk (str "a<b") 5) (mk (str "\"&") 18446744073709551615)).2, KeyInRange e.key := by
+  refine ⟨by decide +kernel, by decide +kernel, ?_⟩
+  have : (build (Topo.mk (.mk ⟨0, 0, [], false, [], [], some (str "Machine"), [], 0, 5⟩ []
+      [.mk ⟨-3, 0, [(0, 0)], true, [], [], some (str "a<b"), [], 5, 5⟩ [] [] [] []] [] []) 2 [] [] [] [] [])
+      (Topo.mk (.mk ⟨0, 0, [], false, [], [], some (str "Machine"), [], 0, 18446744073709551615⟩ []
+      [.mk ⟨-3, 0, [(0, 0)], true, [], [], some (str "\"&"), [], 18446744073709551615, 18446744073709551615⟩ [] [] [] []] [] []) 2 [] [] [] [] [])).2 =
+      [.objAttr (-3, 0) (.name (some (str "a<b")) (some (str "\"&"))), .objAttr (-3, 0) (.size 5 18446744073709551615)] := by
+    decide +kernel
+  intro e he
+  simp only [] at he
+  rw [this] at he
+  simp at he
+  rcases he with rfl | rfl <;> simp [Entry.key, KeyInRange]
 /-- TOO_COMPLEX anywhere: EINVAL -/
 example : exportDoc none [.objAttr (0, 0) (.size 1#64 2#64), .tooComplex (0, 0)] = .einval := by decide +kernel
 /-- what the importer makes of damaged elements: unknown attribute => -1 and the already linked entry is freed;
